@@ -51,16 +51,6 @@ def genName : Gen (List Nat) := do
 
 def dedupNames (ns : List (List Nat)) : List (List Nat) := ns.eraseDups
 
-/-- Go's string order on names (bytes of the UTF-8 text = code points) -/
-def nameLt : List Nat → List Nat → Bool
-  | [], [] => false
-  | [], _ :: _ => true
-  | _ :: _, [] => false
-  | a :: as, b :: bs => if a < b then true else if b < a then false else nameLt as bs
-
-/-- TupleOrderedNames / attrs.GetSorted -/
-def sortNames (ns : List (List Nat)) : List (List Nat) := ns.mergeSort (fun a b => !nameLt b a)
-
 /-- names without the wildcard marker `*` and without an `x` / `&x` pair (their own classes, see the corpus) -/
 def plainNames (ns : List (List Nat)) : List (List Nat) :=
   let ns := ns.filter (· != [42])
@@ -169,7 +159,7 @@ def genRep (kf : Bool) : Nat → Gen Rep
       pure (.tup (names.zip vals))
     | 12 => do pure (.tup [([64, 110, 101, 103], ← genRep kf d)])          -- (@neg: x)
     | 13 | 14 => do
-      let w ← rand 3
+      let w ← if (← chance 1 3) then pure (2 + (← rand 3)) else rand 3
       let names := sortNames (dedupNames (← genList (w + 1) (do
         if (← chance 4 5) then pick identPool else genName)))
       let names := if kf then names else plainNames names
@@ -178,6 +168,44 @@ def genRep (kf : Bool) : Nat → Gen Rep
       let rows ← genList (m + 1) (genList names.length (genRep kf d))
       pure (.rel names rows)
     | _ => genBytes
+
+/-- a relation with 3–5 identifier columns and 1–4 rows whose cells are pairwise different (so that a row printed in
+another column order is a different relation); `Rep.src` builds three quarters of these by chains of joins, i.e.
+with a permuted physical column order -/
+def genWideRel (kf : Bool) : Gen Rep := do
+  let w ← rand 3
+  let names := sortNames ((← genList 8 (pick identPool)).eraseDups.take (w + 3))
+  let names := if names.length < 3 then [[97], [98], [99], [100]] else names
+  let m ← rand 4
+  let mut rows : List (List Rep) := []
+  for r in [0:m + 1] do
+    let mut row : List Rep := []
+    for j in [0:names.length] do
+      let k ← rand 6
+      let cell : Rep ←
+        if k < 3 then pure (.num (Int.ofNat (100 * (j + 1) + r)))
+        else if k == 3 then pure (.str 0 [Int.ofNat (97 + j), Int.ofNat (48 + r)])
+        else if k == 4 then pure (.arr 0 [some (.num (Int.ofNat (10 * j + r))), some (.str 0 [Int.ofNat (65 + j)])])
+        else do
+          -- an arbitrary value, tagged so that it stays different from its neighbours
+          pure (.tup [([99], .num (Int.ofNat (10 * j + r))), ([118], ← genLeaf kf)])
+      row := row ++ [cell]
+    rows := rows ++ [row]
+  pure (.rel names rows)
+
+/-- the wide relation at top level or inside a tuple / array / dict (key or value) / set / another relation's cell -/
+def genNestedWideRel : Gen Rep := do
+  let r ← genWideRel false
+  let other ← genRep false 1
+  let k ← rand 8
+  match k with
+  | 0 | 1 => pure r
+  | 2 => pure (.tup [([97], other), ([114], r)])
+  | 3 => pure (.arr (← genOff) [some r, none, some other, some (← genWideRel false)])
+  | 4 => pure (.dict (dedupKeys [(r, other), (.num 1, ← genWideRel false)]))
+  | 5 => pure (.set [r, other, .num 0])
+  | 6 => pure (.rel [[107], [118]] [[.num 1, r], [.num 2, ← genWideRel false]])
+  | _ => pure (.tup [([64, 110, 101, 103], .set [.arr 0 [some r]])])
 
 /-! ## cases -/
 
@@ -206,7 +234,7 @@ def genTextRep : Gen Rep := do
     else if r == 4 then genBytes
     else if r == 5 then pure .tt
     else do pure (.num (← genInt))
-  let r ← rand 8
+  let r ← rand 10
   match r with
   | 0 | 1 | 2 => leaf
   | 3 => do
@@ -219,12 +247,18 @@ def genTextRep : Gen Rep := do
     pure (.tup (names.zip vals))
   | 5 => do pure (.dict [(← leaf, ← leaf)])
   | 6 => do pure (.set [← leaf])
-  | _ => do
+  | 7 => do
     let a ← genName
     let b ← pick identPool
     let names := sortNames (plainNames (dedupNames [a, b]))
     let row ← genList names.length leaf
     pure (.rel names [row])
+  | _ => do
+    -- one row, 3–5 columns, mostly join-built: the printed row must follow the sorted heading
+    let rel ← genWideRel false
+    match rel with
+    | .rel names (row :: _) => pure (.rel names [row])
+    | r => pure r
 
 /-! ### the reader on arbitrary (well-formed) escape sequences -/
 def genFragment : Gen (List Nat) := do
@@ -270,8 +304,10 @@ def bundleCase (id : String) (name : List Nat) : Case :=
 
 def genCase (idx : Nat) (big : Bool) : Gen Case := do
   let id := s!"C12-{idx}"
-  let r ← rand 20
-  if r < 10 then
+  let r ← rand 22
+  if r ≥ 20 then
+    pure (rtCase id "reprrt/joinrel" (← genNestedWideRel))
+  else if r < 10 then
     let deep ← chance 1 8
     let d ← if big && deep then pure 3 else rand 3
     let rep ← genRep false (d + 1)
@@ -342,6 +378,17 @@ def corpus : List Case :=
     -- a tuple with both x and &x: kept by a literal, stripped by TupleExpr.Eval when some value is not a literal
     rtCase "C12-corpus-42" "corpus" (.tup [([], .num 1), ([38], .bytes 0 [97])]),
     rtCase "C12-corpus-43" "corpus" (.tup [([38, 97], .num (-1)), ([97], .num 2)]),
+    -- relations stored with a permuted physical column order (join results): a printer that slices instead of
+    -- projecting prints {|a, b, c, d| (1, 2, 3, 4)} for the first one
+    srcCase "C12-corpus-44" "corpus/joinrel" "good" "{|a, c| (1, 2)} <&> {|a, b, d| (1, 3, 4)}" "same;repr" "same;repr",
+    srcCase "C12-corpus-45" "corpus/joinrel" "good"
+      "({|a, c| (1, 2), (5, 6)} <&> ({|a, d| (1, 4), (5, 8)} <&> {|a, b| (1, 3), (5, 7)})) where .a > 1" "same;repr" "same;repr",
+    srcCase "C12-corpus-46" "corpus/joinrel" "good"
+      "(x: [({|k, c| ('x', 2)} <&> {|k, b| ('x', [1, , 2])} <&> {|a, k| ({}, 'x')}) | {|a, b, c, k| (1, 2, 3, 'y')}])"
+      "same;repr" "same;repr",
+    { id := "C12-corpus-47", cls := "good", kind := "repr", stratum := "corpus/joinrel",
+      model := "{|a, b, c, d| (1, 3, 2, 4)}", spec := "{|a, b, c, d| (1, 3, 2, 4)}",
+      payload := ["{|a, c| (1, 2)} <&> {|a, b, d| (1, 3, 4)}"] },
     -- probes that hold
     rtCase "C12-corpus-16" "corpus" (.arr (-1) [some (.num (-1)), none, some (.num (-1234567))]),
     rtCase "C12-corpus-17" "corpus" (.str (-1234567) [39, 34, 92, 127, 0, 0x1F600]),
